@@ -58,7 +58,7 @@ def r20_1(ctx: Ctx) -> None:
             ctx.check(fwd or bounded_self, "R20.1", d, d.node, f"{cn}.decompress honours max_length",
                       f"{cn}.decompress ignores its max_length parameter: one input block of an expanding codec ({m['name']}) is decoded in full, so a highly compressible member "
                       "makes a single call return (and park) output in proportion to the compression ratio", construct=f"{cn}.decompress ignores max_length")
-    ctx.floor("R20.1", n, 6, "decoder classes of expanding methods")
+    ctx.floor("R20.1", n, 4, "decoder classes of expanding methods")
     # the chain passes max_length on to every stage
     f = ctx.prog.func("compressor", "SevenZipDecompressor._decompress")
     calls = [c for c in q.calls(f) if attr_tail(c) == "decompress"]
